@@ -172,7 +172,19 @@ namespace CDNS {
          */
         void skip_item();
 
+        /**
+         * @brief Maximum nesting depth of arrays, maps and tags that skip_item() follows. Deeper nesting
+         * (which no C-DNS structure needs) is refused instead of recursing until the stack overflows.
+         */
+        static constexpr unsigned MAX_SKIP_NESTING = 256;
+
         private:
+
+        /**
+         * @brief Skip over the next item, "depth" levels below the item given to skip_item()
+         * @throw CdnsDecoderException if the nesting is deeper than MAX_SKIP_NESTING
+         */
+        void skip_item(unsigned depth);
 
         /**
          * @brief Read the first byte of the next item in input stream. This byte contains item's
